@@ -224,8 +224,53 @@ def main(argv):
         return mutants(argv[1:] or None)
     if what == "seeded":
         return seeded(argv[1:] or None)
+    if what == "prefix":
+        return prefix(argv[1:] or None)
     if what == "refs":
         print(_ref_vs_openssl(20))
         return 0
     print("unknown selftest", what)
     return 2
+
+
+def _archive_copy(rev):
+    base = os.environ.get("VERIF_SCRATCH") or tempfile.mkdtemp(prefix="verif-scratch-")
+    os.makedirs(base, exist_ok=True)
+    dst = tempfile.mkdtemp(prefix="rev-", dir=base)
+    p1 = subprocess.Popen(["git", "-C", "/repo", "archive", rev, "bec2format", "appnotes"], stdout=subprocess.PIPE)
+    subprocess.check_call(["tar", "-x", "-C", dst, "--exclude=test_*.py"], stdin=p1.stdout)
+    p1.wait()
+    return base, dst
+
+
+def _one_prefix(job):
+    rev, prop = job
+    base, dst = _archive_copy(rev)
+    try:
+        rc, outp = _run_check_on(dst, prop)
+        return rev, prop, rc, outp
+    finally:
+        shutil.rmtree(dst, ignore_errors=True)
+        if not os.environ.get("VERIF_SCRATCH"):
+            shutil.rmtree(base, ignore_errors=True)
+
+
+def prefix(only=None):
+    """every 'fixed' finding must be reported again on the tree just before its fix commit"""
+    jobs = []
+    for k in core.load_known():
+        if k.get("status") == "fixed" and (not only or k["property"] in only or k["commit"] in only):
+            j = (k["commit"] + "^", k["property"])
+            if j not in jobs:
+                jobs.append(j)
+    bad = 0
+    with ThreadPoolExecutor(max_workers=2) as ex:
+        for rev, prop, rc, outp in ex.map(_one_prefix, jobs):
+            viol = [ln for ln in outp.splitlines() if ln.startswith("violation:")]
+            if rc == 1:
+                print("before %-10s %s reports: %s" % (rev, prop, "; ".join(v[11:90] for v in viol[:4])))
+            else:
+                bad += 1
+                print("before %-10s %s does NOT report (rc=%s)\n%s" % (rev, prop, rc, outp[-400:]))
+    print("%d/%d fixed findings are reported on the tree before their fix" % (len(jobs) - bad, len(jobs)))
+    return 2 if bad else 0
